@@ -151,4 +151,40 @@ PROPS["C11"] = {
     "assumptions": ["I10"],
 }
 
+PROPS["C16"] = {
+    "level_text": "Theorems (Lean 4): the proxy's forwarding decision `forward` (transcribed from forwardRpc) routes to the last element of ProxyNext if any, else to the (rewritten) destination; appends the proxy's name to the route record exactly once and pops ProxyNext; leaves id, status, body, trailer, reset and the remaining header fields as received / as the interceptor left them; never forwards an envelope whose header is missing or whose source differs from the attach name. Over the proxy transition system (any number of connections, re-attachment, dial on demand, failures): for every connection object, written ++ lost-in-failed-write ++ in-flight ++ queued = the sequence of envelopes the serve loop enqueued for it, as an exact list equality (order, no loss, no duplication), the queue never exceeds 16, and if nothing was dropped this equals everything routed to it (proxy_fifo_pair, proxy_exactly_once_below_buffer, proxy_dropped_is_logged). proxy_drop_witness: the 17th envelope to a stuck destination is dropped silently (known finding). Tied to /repo by flags, clientBufferSize, the proxy skeletons and an exact lock-step (`pxseq`): scenarios with 1-8 clients, 1-4 servers, dial on demand, an interceptor family, names from attached/dialable/unknown are fed to a real Proxy one envelope at a time (hook events) and every decision and delivery is compared with the model folded over Proxy.step; end-to-end workloads of C01-C04 run through clients - proxy - Demux - Serve with at most 12 envelopes outstanding per destination, bursts above the buffer compared with the model's drop decisions.",
+    "level_note": "Trusted: Lean kernel; extractor; harness. Known finding proxy-drop-above-buffer (#15): printed as KNOWN-FINDING when reproduced in the burst scenarios; any loss below the buffer, reordering or duplication is a violation. An empty non-nil ProxyNext (chains of proxies over by-reference transports) panics the proxy: outside C16's single-proxy quantifier, reported to the maintainers.",
+    "technique": "Lean 4 proof (function-level laws + inductive invariant over the proxy LTS with history variables) + exact lock-step of a real Proxy against Proxy.step + end-to-end workloads",
+    "props": ["Goat.ProxyThms", "Goat.UnaryReply"],
+    "tie": ["Goat.Tie.C16"],
+    "theorems": ["proxy_route", "proxy_record_once", "proxy_record_once_plain", "proxy_unchanged_otherwise", "forward_table_unchanged_unless_sent", "no_spoof_forwarded_fn",
+                 "lts_forward_spec", "proxy_fifo_pair", "proxy_exactly_once_below_buffer", "proxy_dropped_is_logged", "proxy_drop_witness", "reply_swaps", "reset_swaps", "reply_id", "reset_id"],
+    "rule": "lock-step cases: one per proxy scenario (peers, interceptor, item sequence); e2e cases: one per RPC through the proxy; non-trivial = at least one envelope accepted for forwarding",
+    "modelled_not_verified": COMMON_MNV,
+    "assumptions": ["a server connection is one client's id space: the server side is demultiplexed per client (Demux keyed by source)"],
+}
+PROPS["C17"] = {
+    "level_text": "Theorems (Lean 4, proxy transition system, every reachable state): every forwarded envelope came from a connection attached under the envelope's header source, and a bad envelope is ignored, never a panic (no_spoof_forwarded, bad_source_ignored, forward_never_panics, no_badSource_panic, cmdRpc_no_panic); the serve loop's forwarding step is enabled whatever the state of any destination's queue, writer or dial, and leaves every other connection unchanged (serve_step_never_blocks, serve_step_isolated); a failure report removes exactly the failing connection object, never a newer one attached under the same name, and is recorded for the disconnect callback (reattach_safe, failed_conn_removed, failure_report_enabled); after cancellation every reader, writer and dialer has an enabled own step that strictly decreases its rank, and a run of own steps reaches quiescence (cancel_terminates_all, cancel_terminates_all_global). Negative witnesses for the three repair flags. Tied to /repo by 4 flags, skeletons and scenarios on the real proxy, each also emitted as a `pxseq` lock-step case: spoofed/absent sources, each bad-peer role beside live traffic, re-attachment before/after the old connection fails (forced order via hook events), cancellation after each step with goroutine census.",
+    "level_note": "Trusted: Lean kernel; extractor; harness. I6: the disconnect callback is required at least once per failed connection. A panic of Serve is recovered by the harness and reported with the exact sequence.",
+    "technique": "Lean 4 proof (inductive invariants, enabledness and rank measures over the proxy LTS) + flags/skeletons + scripted scenarios and lock-step on the real proxy",
+    "props": ["Goat.ProxyThms"],
+    "tie": ["Goat.Tie.C17"],
+    "theorems": ["no_spoof_forwarded", "no_spoof_forwarded_fn", "bad_source_ignored", "forward_never_panics", "no_badSource_panic", "cmdRpc_no_panic", "serve_step_never_blocks", "serve_step_isolated",
+                 "reattach_safe", "failed_conn_removed", "failure_report_enabled", "cancel_terminates_all", "cancel_progress", "cancel_terminates_all_global",
+                 "bad_badSourceIsIgnored", "bad_badSourceIsIgnored_lts", "bad_removeComparesIdentity", "bad_errReportSelectsOnCtx"],
+    "rule": "one case per scripted scenario step sequence (spoof matrix, bad-peer roles, re-attach orders, random mixes), each also run cancelled after each step; non-trivial = every scenario",
+    "modelled_not_verified": COMMON_MNV,
+    "assumptions": ["I6"],
+}
+PROPS["C18"] = {
+    "level_text": "Theorems (Lean 4, demultiplexer transition system, every reachable state): what a logical connection has been handed is a prefix of the log of hand-offs for it, all with its key, an in-order sublist of the shared transport's input filtered by that key, and for a key never cancelled exactly that filtered sequence (demux_per_key_fifo, demux_per_key_fifo_single_epoch); the input equals the hand-off log position for position - nothing handed twice or to two connections (demux_exactly_once); exactly one announcement per connection object, one live object per key (demux_announce_once_per_epoch); what reaches the shared transport per connection is exactly what was accepted on it, in order (demux_write_passthrough); no reachable panic; after Cancel a pending Read/Write has an enabled failing completion and Run is not held up (cancelled_key_fails_not_blocks_not_panics); after Stop, Run exits within two own steps (stop_ends_run). Negative witnesses for both flags. Tied to /repo by flags, skeletons and an exact lock-step (`dmseq`) of a real Demux against Demux.step: all sequences of <=3 envelopes over <=3 keys x consumption orders, forced Cancel/Stop placements via yield hooks, random mixes, plus complete RPC workloads from several logical clients over one shared transport.",
+    "level_note": "Trusted: Lean kernel; extractor; harness. I5: announced exactly once per epoch between Cancels of the key.",
+    "technique": "Lean 4 proof (inductive invariant with history variables over the demux LTS) + exact lock-step of a real Demux against Demux.step + forced schedules",
+    "props": ["Goat.DemuxThms"],
+    "tie": ["Goat.Tie.C18"],
+    "rule": "lock-step cases: exhaustive sequences (<=3 envelopes, <=3 keys, 3 consumption orders), forced Cancel/Stop schedules, random item sequences over 1-8 keys; e2e cases: RPCs of several logical clients; non-trivial = at least one envelope",
+    "modelled_not_verified": COMMON_MNV,
+    "assumptions": ["I5"],
+}
+
 NOT_YET = {}
